@@ -267,7 +267,7 @@ def run_c08(prop, tier):
     import checks_apiops
     ops_cases, ops_cov = checks_apiops.run_for(prop, tier, vh)
     allcases = [c for r in res for c in r["cases"]] + api["cases"] + ops_cases
-    verdict = findings.adjudicate(prop, allcases, lambda c: (checks_apiops.confirm_fn(vh)(c) if "api_case" in c else
+    verdict = findings.adjudicate(prop, allcases, lambda c: (checks_apiops.confirm_fn(vh)(c) if ("api_case" in c or "api_random" in c) else
                                                              checks_api.cond_api_confirm(vh)(c) if c["key"].get("via", "").startswith("api") else cond_confirm(vh)(c)))
     cov = {"states": sum(r["states"] for r in res) + api["states"], "transitions": sum(r["transitions"] for r in res) + api["transitions"],
            "traces_validated_against_impl": len(res) + api["traces"], "cases_enumerated": total, "cases_replayed": len(cases),
